@@ -39,6 +39,9 @@ func (in *Interp) newObject(size int, t types.Type, tag string) Ptr {
 }
 
 func (in *Interp) obj(id int) *Object {
+	if id >= rtypeBase {
+		return rtypeDummy
+	}
 	if o, ok := in.objs[id]; ok {
 		return o
 	}
@@ -52,6 +55,9 @@ func (in *Interp) obj(id int) *Object {
 }
 
 func (in *Interp) objMut(id int) *Object {
+	if id >= rtypeBase {
+		return rtypeDummy
+	}
 	if o, ok := in.objs[id]; ok {
 		return o
 	}
